@@ -1,5 +1,5 @@
 (* Line protocol for the extracted cancellation model (coq/rt/CancelM.v).
-     reset NW [[instr ...] ...] FX     -> "ok STATE"   (FX = 1: completion loop of fixes/D14.patch)
+     reset NW [[instr ...] ...] FX F8  -> "ok STATE"   (FX = 1: completion loop iterates over a copy; F8 = 1: skipped task forgotten)
      e cl C connect | submit ID PROG ASG | request ID ORDER | cancel ID | disconnect ORDER
      e up W ASG | e down W | e step W  -> "ok FLAGS LABELS STATE"  or "none" (event not enabled / handler raises)
    FLAGS = [overtaken(before) quiescent clean no_orphans] as 0/1.
@@ -67,6 +67,7 @@ let asg_of x = List.map (fun p -> match list_of p with [I w; idx] -> (nat_of_int
 
 let progs = ref []
 let fx = ref false
+let f8 = ref false
 let st = ref (init_sys O)
 
 let event_of = function
@@ -84,15 +85,15 @@ let flags before s =
   L [vb before; vb (quiescent s); vb (clean s); vb (List.for_all no_orphans s.sy_workers)]
 
 let handle line = match parse line with
-  | [A "reset"; I nw; ps; I f] ->
-      fx := (f <> 0);
+  | [A "reset"; I nw; ps; I f; I g] ->
+      fx := (f <> 0); f8 := (g <> 0);
       progs := List.map (fun p -> List.map instr_of (list_of p)) (list_of ps);
       st := init_sys (nat_of_int nw);
       "ok " ^ show (vsys !st)
   | A "e" :: ev ->
       let e = event_of ev in
       let ov = overtaken !st e in
-      (match step !fx !progs !st e with
+      (match step !fx !f8 !progs !st e with
        | None -> "none"
        | Some (s, labs) -> st := s;
            "ok " ^ show (flags ov s) ^ " " ^ show (L (List.map vlabel labs)) ^ " " ^ show (vsys s))
